@@ -73,6 +73,8 @@ def encodings(value, user=None):
     out = {value, quote(value, safe=""), base64.b64encode(value.encode()).decode()}
     if user is not None:
         out.add(base64.b64encode(f"{user}:{value}".encode()).decode())
+    # the value alone as the user name of Basic credentials (`http://token@host`)
+    out.add(base64.b64encode(f"{value}:".encode()).decode())
     return out
 
 
@@ -141,14 +143,24 @@ def execute(run, seed, scratch):
         args += ["--set-cookie", f"session={secrets['set_cookie'][0]}"]
     userinfo = None
     if "url_userinfo" in routes:
-        secrets["url_userinfo"] = (canary(rng, "uinf"), "bob")
-        userinfo = f"bob:{secrets['url_userinfo'][0]}"
+        # the user name may be empty (`http://:password@host`) or absent (`http://token@host`)
+        user = rng.choice(["bob", "bob", "", None])
+        secrets["url_userinfo"] = (canary(rng, "uinf"), user)
+        userinfo = secrets["url_userinfo"][0] if user is None else f"{user}:{secrets['url_userinfo'][0]}"
     if "response_set_cookie" in routes:
         secrets["response_set_cookie"] = (canary(rng, "rcki"), None)
         response_headers["Set-Cookie"] = f"sid={secrets['response_set_cookie'][0]}; Path=/"
+        if rng.random() < 0.6:
+            # several header lines with the same sensitive name: every one of them is a secret
+            secrets["response_set_cookie_2"] = (canary(rng, "rck2"), None)
+            secrets["response_set_cookie_3"] = (canary(rng, "rck3"), None)
+            response_headers["Set-Cookie"] = [response_headers["Set-Cookie"], f"csrf={secrets['response_set_cookie_2'][0]}; Path=/", f"t={secrets['response_set_cookie_3'][0]}"]
     if "response_token_header" in routes:
         secrets["response_token_header"] = (canary(rng, "rtok"), None)
         response_headers["X-Auth-Token"] = secrets["response_token_header"][0]
+        if rng.random() < 0.5:
+            secrets["response_token_header_2"] = (canary(rng, "rtk2"), None)
+            response_headers["X-Auth-Token"] = [response_headers["X-Auth-Token"], secrets["response_token_header_2"][0]]
     # the API fails some checks so that failures (curl line, response) are printed
     rules.append({"when": {"path_regex": "^/a", "nth": 2}, "then": {"status": 500, "json": {"error": "boom"}, "headers": response_headers}})
     rules.append({"when": {"path_regex": "^/b", "nth": 3}, "then": {"status": 500, "json": {"error": "boom"}, "headers": response_headers}})
